@@ -141,4 +141,49 @@ META = {
                         "race mode is observation of executions whose interleaving the simulator does not decide; its reports are not replayable byte-exactly", "sampling, not proof"],
         "components": {"real": REAL_CLIENT, "stub": STUB_CLIENT + ["lock hand-off order (tagged simBeforeLock hook + scheduler)"]},
     },
+    "C05": {
+        "level": "exploration",
+        "budget": {"quick": 35, "thorough": 600},
+        "rule": ("each run = 1-3 simulated servers x 1-3 unit ids, each a reference device with its own hash-attributable memory (optionally ASCII/NUL patterns), 1-40 valid register fields "
+                 "over all 13 types (byte/word orders, string lengths 1-250, exact duplicates, overlaps, coil fields mixed in) clustered around tape-chosen bases {0, the 125-register "
+                 "boundary, 65535, the last 125 registers, random}; the real Builder produces FC3 or FC4 requests in TCP or RTU framing (stratified with strict/lenient and base class); "
+                 "each request is sent by a real client through DialContextFunc to the device its ServerAddress names; with probability 1/4 per run devices answer reads with only the first "
+                 "r < quantity registers and close. Checked: every request seen by a device carries that device's unit and the request's window; every requested field reported exactly "
+                 "once on its own definition with the value the reference typed decode gives for that device's memory (exact Go type, floats bitwise); short answers: strict fails as a whole, "
+                 "lenient marks exactly the unreachable fields. non-trivial = at least 2 distinct register fields; distinct = distinct schedule fingerprint."),
+        "assumptions": ["32/64-bit and string semantics are the ones the library documents (LowWordFirst reverses the register order of the value, LittleEndian reads the resulting bytes little-endian, "
+                        "BigEndian strings swap the bytes of each register, NUL-terminated, one rune per byte)", "byte-order flags on 8/16-bit fields are documented as irrelevant and are not generated",
+                        "valid field = its registers lie inside the 16-bit address space", "replies are delivered unfragmented", "sampling, not proof"],
+        "components": {"real": ["modbus.Builder / split / batchToRequests (builder.go, splitter.go)", "BuilderRequest.ExtractFields, Field.ExtractFrom", "packet.Registers accessors, AsRegisters",
+                                "modbus.Client (TCP and RTU framing) incl. FC3/FC4 constructors and response parsers"],
+                       "stub": ["devices (reference model from the specification, per server address and unit id)", "network (simulated connections routed by DialContextFunc)", "clock", "goroutine choice"]},
+    },
+    "C11": {
+        "level": "exploration",
+        "budget": {"quick": 30, "thorough": 600},
+        "rule": ("each run = write-multiple-coils (library packing) of a tape-chosen pattern of 1-1968 coils through a real client to a reference device that stores coils per the "
+                 "specification layout, then a read of an overlapping window of 1-2000 coils (FC1) or discrete inputs (FC2), TCP or RTU, either direct (IsCoilSet/IsInputSet asked for every "
+                 "address in the payload window, and 5 addresses before and 5 beyond) or through builder coil fields + ExtractFields; (framing x function x size class x via-builder) stratified. "
+                 "Checked: lookup == the device's coil (padding bits zero), error exactly outside [start, start+8*len(payload)). The observed mapping is classified by formula so that a known "
+                 "defect is matched by what it does, not by where it is. non-trivial = payload longer than one byte; distinct = distinct fingerprint."),
+        "assumptions": ["the device model is the specification (coil start+i is bit i mod 8 of payload byte i div 8)", "sampling, not proof"],
+        "components": {"real": ["packet.NewWriteMultipleCoilsRequest*, CoilsToBytes", "ReadCoilsResponse.IsCoilSet, ReadDiscreteInputsResponse.IsInputSet/IsCoilSet, isBitSet", "builder coil batching and extractCoilFields", "modbus.Client"],
+                       "stub": ["device", "network", "clock", "goroutine choice"]},
+    },
+    "C13": {
+        "level": "exploration",
+        "budget": {"quick": 25, "thorough": 540},
+        "race_budget": {"quick": 10, "thorough": 120},
+        "rule": ("each run = one FC3/FC4 response (TCP or RTU framing) obtained by a real client from a reference device whose registers hold a mix of hash values and ASCII/NUL pairs, then "
+                 "shared by 1-4 reader tasks; each reader performs 1-12 reads drawn from all 23 exported Registers accessors (all byte/word orders, addresses inside, at the edges of and outside the "
+                 "window, string lengths up to 250) and ExtractFields strict/lenient over overlapping fields, with repeats; readers share one *Registers or each makes its own view of the shared "
+                 "response; the scheduler interleaves readers at call granularity; (framing x function x first operation) stratified. Checked after every call: the response re-encodes to the "
+                 "bytes it had on arrival; the call's result equals the result of the same call on a fresh private copy of the arrival snapshot (so results are independent of order and history); "
+                 "the same call repeated returns the same result. Race mode: the same readers as free goroutines under -race. Every run is non-trivial; distinct = distinct fingerprint "
+                 "(which includes the operation kinds)."),
+        "assumptions": ["what the right value is belongs to C04/C05; C13 only compares against the same code on a private copy", "FC23 responses cannot be obtained through the clients on this tree (known finding of C07) and are not used",
+                        "race mode is observation, not replayable byte-exactly", "sampling, not proof"],
+        "components": {"real": ["packet.Registers accessors", "BuilderRequest.ExtractFields / Field.ExtractFrom", "response parsers and AsRegisters", "modbus.Client"],
+                       "stub": ["device", "network", "clock", "goroutine choice (order of reads by several consumers)"]},
+    },
 }
